@@ -1,4 +1,4 @@
-from harness.common import Prop, canon
+from harness.common import Prop, canon, scale
 from harness import gen_text as G
 
 
@@ -17,7 +17,7 @@ class C17(Prop):
                    '(generators never produce them)']
 
     def streams(self, rng, tier):
-        n = 600 if tier == 'quick' else 20000
+        n = 600 if tier == 'quick' else scale(150000)
         corpus = [
             {'op': 'tb.new', 'content': {'s': ''}},
             {'op': 'tb.new', 'content': {'l': [{'s': 'a'}, {'s': ''}, {'n': None}, {'l': []}, {'d': []}, {'i': 0}, {'b': False}]}},
